@@ -294,15 +294,18 @@ def handle (st : State) (req : Json) : Except String (State × Json) := do
           let v ← valueOfJson (← c.getObjVal? "v")
           -- `len`: the model's `encoded_len`; `enclen`: the right-hand side of theorem `encBody_len`;
           -- `lenwf` / `decwf` / `refwf` / `nomod` / `rtwf`: the hypotheses of `encBody_len` /
-          -- `decode_no_panic_ideal` / `encode_ideal_eq_ref` / `encode_rust_eq_ref` / `roundtrip` on this layout
+          -- `decode_no_panic_ideal` / `encode_ideal_eq_ref` / `encode_rust_eq_ref` / `roundtrip_any` on this layout
           pure (Json.mkObj [("r", "ok"), ("len", Json.num (lenBody b v)), ("enclen", Json.num (encLen b v)),
             ("lenwf", Json.bool (lenWfBody b)), ("decwf", Json.bool (decWfBody b)),
             ("refwf", Json.bool (refWfBody b)), ("nomod", Json.bool (noModBody b)),
-            ("rtwf", Json.bool (rtWfBody b))])
+            ("rtwf", Json.bool (rtWfFull b)), ("derived", Json.bool (match b with | .derived .. => true | _ => false))])
         | "canon" =>
           -- the right-hand side of theorem `roundtrip`: the normal form of the value
           let v ← valueOfJson (← c.getObjVal? "v")
-          pure (Json.mkObj [("r", "ok"), ("value", jsonOfValue (canonBody b v))])
+          -- (`roundtrip_any`: packets and structs without parent and inheriting packets; `nocons`: its
+          -- hypothesis on the value)
+          pure (Json.mkObj [("r", "ok"), ("value", jsonOfValue (canonFull b v)),
+            ("nocons", Json.bool (noConstrained b.allCs v))])
         | _ => throw s!"unknown case kind {k}"
       pure (st, Json.mkObj [("status", "ok"), ("out", Json.arr outs.toArray)])
   | _ => throw s!"unknown op {op}"
